@@ -84,8 +84,8 @@ class ApproxInterp(ArrInterp):
         return super().external_call(name, args, kwargs, node)
 
     def call_builtin(self, name, args, kwargs, node):
-        if name == "max" and args and not all(isinstance(a, (int, float)) for a in args):
-            return Tagged("max", args)
+        if name in ("max", "min") and args and not all(isinstance(a, (int, float)) for a in args):
+            return Tagged(name, args)
         return super().call_builtin(name, args, kwargs, node)
 
     def arr_method(self, a, name, args, kwargs, node):
@@ -191,13 +191,26 @@ def check_dispatch(ctx: Ctx):
                         arg = it.root.fit_calls[-1][0] if it.root.fit_calls else None
                         srcs = _amax_sources(arg)
                         want_src = sorted(x for x in (("PRED" if pe else "CC_PRED"), ("REF" if re_ else "CC_REF")))
-                        ctx.decide("R05.3", f, pnode, c2, "output dtype = smallest fitting uint of the maximum over both labelled outputs", sorted(srcs) == want_src, {"sized_from": sorted(srcs)})
+                        ctx.decide("R05.3", f, pnode, c2, "output dtype = smallest fitting uint of the maximum over both labelled outputs", sorted(srcs) == want_src and _is_max_tree(arg), {"sized_from": sorted(srcs), "expression": repr(arg)[:120]})
                     else:
                         txt = ct.name if isinstance(ct, Sym) else repr(ct)
                         narrow = isinstance(ct, Sym) and ct.name.startswith("dtypeof:")
                         ctx.decide("R05.3", f, pnode, c2, "output dtype is sized for the component ids", False if narrow else None, {"cast_to": txt, "why": "dtype of the semantic input is sized for the semantic label values, not for the number of components"})
     if rows < 20:
         ctx.undecided("R05.1.floor", f, f.node, "floor:R05.1", f"{rows} configuration rows evaluated, confirmed floor is 20")
+
+
+def _is_max_tree(t) -> bool:
+    """max(...) / np.maximum(...) nested over array maxima only (no min, no arithmetic)"""
+    if isinstance(t, Tagged):
+        if t.name == "amax":
+            return True
+        if t.name in ("max", "numpy.maximum", "builtin:max", "numpy.max"):
+            flat = []
+            for a in t.args:
+                flat += list(a) if isinstance(a, (list, tuple)) else [a]
+            return bool(flat) and all(_is_max_tree(x) for x in flat)
+    return False
 
 
 def _amax_sources(t) -> list:
@@ -478,6 +491,7 @@ _F = "panoptica/_functionals.py"
 _N = "panoptica/utils/numpy_utils.py"
 
 VARIANTS = [
+    Variant("C05-m-output-dtype-min", "R05.3", "mutant", [(_A, "            max(prediction_arr.max(), reference_arr.max())", "            min(prediction_arr.max(), reference_arr.max())")]),
     Variant("C05-m-semantic-dtype-pred-min", "R05.6", "mutant", [(_A, "max_value = max(np.max(pred_label_range[1]), np.max(ref_label_range[1]))", "max_value = max(np.max(pred_label_range[0]), np.max(ref_label_range[1]))")], control=True),
     Variant("C05-m-semantic-dtype-single-label", "R05.6", "mutant", [(_A, "            if len(pred_labels) > 0\n", "            if len(pred_labels) > 1\n")]),
     Variant("C05-m-semantic-dtype-ref-only", "R05.6", "mutant", [(_A, "max_value = max(np.max(pred_label_range[1]), np.max(ref_label_range[1]))", "max_value = np.max(ref_label_range[1])")]),
